@@ -336,11 +336,13 @@ class World:
         return mc.link.writers[mc.side] if mc.link is not None else None
 
     def adopt_new(self, mc):
-        """The connection object the code created for this model connection: the new registry member."""
+        """The connection object the code created for this model connection: a new registry member or a
+        connection that has reported a state (the registry must not be the only way to learn about it, or a
+        connection that is wrongly missing from it would have no known attempt)."""
         if mc.conn is not None:
             return
         known = {id(m.conn) for m in self.mcs.values() if m.conn is not None}
-        for c in self.network.peer_connections:
+        for c in self.known_peer_connections():
             if id(c) in known:
                 continue
             if mc.kind == 'out' and not c.incoming and c.port in (mc.port, mc.port + 1):
@@ -350,6 +352,14 @@ class World:
             if mc.conn is not None:
                 mc.rid = self.rec.idx(c)
                 return
+
+    def known_peer_connections(self):
+        seen, out = set(), []
+        for c in list(self.network.peer_connections) + list(self.rec.objs):
+            if id(c) not in seen and isinstance(c, self.rec._PC):
+                seen.add(id(c))
+                out.append(c)
+        return out
 
     # -- helpers ---------------------------------------------------------------
     def msg_for(self, mc):
@@ -724,7 +734,7 @@ async def _scn_race(w: World, which: str):
     rec.stim(f'create_peer_connection race {which}')
     task = asyncio.create_task(w.network.create_peer_connection('racer', 'P'))
     await vloop.settle(loop)
-    for c in w.network.peer_connections:        # the direct attempt's connection: opened by `task`
+    for c in w.known_peer_connections():        # the direct attempt's connection: opened by `task`
         if not c.incoming:
             rec.att_fn[rec.idx(c)] = lambda: 'gone' if task.done() else 'running'
     rec.quiescent()
@@ -756,12 +766,17 @@ async def _scn_network_disconnect(w: World, hold: bool):
         await simserver.ScriptedPeer(w.net, f'p{port}', port).listen()
     rec.stim('api connect pending, ctp connect pending, one accepted, one initialised')
     t1 = asyncio.create_task(w.network.create_peer_connection('p7200', 'P', ip='10.0.2.1', port=7200))
-    await asyncio.sleep(0)
-    for c in w.network.peer_connections:
-        if c.port == 7200:
-            rec.att_fn[rec.idx(c)] = lambda: 'gone' if t1.done() else 'running'
+    before = {t for t in asyncio.all_tasks(loop) if t.get_name().startswith('connect-to-peer-')}
     w.server.sessions[-1].send(M.ConnectToPeer.Response('p7210', 'P', '10.0.2.2', 7210, 77, False,
                                                         obfuscated_port_amount=0, obfuscated_port=0))
+    await vloop.settle(loop)
+    ctp = [t for t in asyncio.all_tasks(loop) if t.get_name().startswith('connect-to-peer-') and t not in before]
+    for c in w.known_peer_connections():        # both attempts are known: the API caller's task, the connect-to-peer task
+        if c.port == 7200:
+            rec.att_fn[rec.idx(c)] = lambda: 'gone' if t1.done() else 'running'
+        elif c.port == 7210 and ctp:
+            rec.att_fn[rec.idx(c)] = lambda: 'gone' if ctp[0].done() else 'running'
+    rec.quiescent()
     ep1 = await w.net.dial(LISTEN)
     ep2 = await w.net.dial(LISTEN_OBF)
     ep2.send_message(M.PeerInit.Request('inpeer', 'P', 0), obfuscated=True)
@@ -792,6 +807,48 @@ async def _scn_network_disconnect(w: World, hold: bool):
         elif not t.cancelled():
             t.exception()
     del ep1
+
+
+async def _scn_disconnect_while_connecting(w: World, via: str):
+    """Network.disconnect() while one attempt is suspended in open_connection; the TCP connect completes afterwards.
+    via 'api': create_peer_connection's direct attempt; via 'ctp': the connect back on a ConnectToPeer."""
+    M, loop, rec = w.M, w.loop, w.rec
+    port = 7500
+    w.gates[port] = loop.create_future()
+    peer = simserver.ScriptedPeer(w.net, 'slow', port)
+    await peer.listen()
+    rec.stim(f'attempt via {via}, connect pending')
+    before = {t for t in asyncio.all_tasks(loop) if t.get_name().startswith('connect-to-peer-')}
+    if via == 'api':
+        task = asyncio.create_task(w.network.create_peer_connection('slow', 'P', ip='10.0.5.1', port=port))
+    else:
+        w.server.sessions[-1].send(M.ConnectToPeer.Response('slow', 'P', '10.0.5.1', port, 88, False,
+                                                            obfuscated_port_amount=0, obfuscated_port=0))
+        task = None
+    await vloop.settle(loop)
+    if task is None:
+        new = [t for t in asyncio.all_tasks(loop) if t.get_name().startswith('connect-to-peer-') and t not in before]
+        task = new[0] if new else None
+    for c in w.known_peer_connections():
+        if c.port == port and task is not None:
+            rec.att_fn[rec.idx(c)] = lambda: 'gone' if task.done() else 'running'
+    rec.quiescent()
+    rec.stim('network.disconnect')
+    await w.network.disconnect()
+    await vloop.settle(loop)
+    rec.quiescent()
+    rec.stim('the TCP connect completes')
+    if not w.gates[port].done():            # (cancelling the connect-to-peer task cancels the pending connect)
+        w.gates[port].set_result('ok')
+    await vloop.settle(loop)
+    rec.quiescent()
+    await asyncio.sleep(100)
+    await vloop.settle(loop)
+    rec.quiescent()
+    if task is not None and not task.done():
+        task.cancel()
+    elif task is not None and not task.cancelled():
+        task.exception()
 
 
 async def _scn_concurrent_disconnects(w: World, kind: str):
@@ -947,6 +1004,9 @@ def scenarios(seed, tmpdir) -> dict:
     for hold in (False, True):
         scn[f'network.disconnect:hold={hold}'] = lambda h=hold: run_network_scenario(
             rng('netdisc'), 'netdisc', lambda wd: _scn_network_disconnect(wd, h), hold=False)
+    for via in ('api', 'ctp'):
+        scn[f'disconnect-while-connecting:{via}'] = lambda v=via: run_network_scenario(
+            rng('dwc'), 'dwc', lambda wd: _scn_disconnect_while_connecting(wd, v), hold=False)
     for kind in ('in', 'out'):
         scn[f'concurrent-disconnects:{kind}'] = lambda k=kind: run_network_scenario(
             rng('conc'), 'conc', lambda wd: _scn_concurrent_disconnects(wd, k), hold=False)
@@ -1237,6 +1297,24 @@ def run(chk: Check, args):
     for i in (0, len(traces) // 3, len(traces) - 1):
         chk.sample(dict(meta=metas[i], trace=traces[i]))
 
+    # the attempt of every outgoing connection created in a Network-level run must be known to the recorder while
+    # the connection is CONNECTING - otherwise the "being opened by a still-running attempt" half of RegistryExact
+    # would silently not be evaluated
+    blind = 0
+    for tr, meta in zip(traces, metas):
+        if str(meta.get('name', '')).startswith('client:'):
+            continue
+        last = {}
+        for e in tr[1:]:
+            if e['ev'] == 'state':
+                last[e['c']] = e['st']
+            elif e['ev'] == 'q':
+                blind += sum(1 for i, k in enumerate(tr[0]['kind'], start=1)
+                             if k == 'out' and last.get(i) == 'CONNECTING' and e['att'][i - 1] == 'unknown')
+    chk.cov['binding_selftest']['connecting_with_unknown_attempt'] = blind
+    if blind:
+        raise MachineryFailure(f'{blind} quiescent records have a CONNECTING outgoing connection whose attempt is unknown')
+
     # -- B: TLC judges the recorded executions ------------------------------------------------
     v = tlc.validate_traces(TRACE, 'Trace.cfg', traces, max_diag=0, timeout=2400,
                             workers=int(__import__('os').environ.get('VERIF_TLC_WORKERS', '8')))
@@ -1296,12 +1374,23 @@ def run(chk: Check, args):
 def _corruptions(traces):
     """Realistic observation faults; each must make the trace spec reject."""
     out = []
-    want = {'swap-closing-closed': 3, 'duplicate-closed': 3, 'registry-leftover': 3, 'delivery-after-closed': 3,
+    want = {'unregistered-while-connecting': 3, 'swap-closing-closed': 3, 'duplicate-closed': 3, 'registry-leftover': 3, 'delivery-after-closed': 3,
             'wire-after-closed': 3, 'connected-after-closed': 3}
     for tr in traces:
         if not any(want.values()):
             break
         states = [(k, e) for k, e in enumerate(tr) if e['ev'] == 'state']
+        if want['unregistered-while-connecting']:
+            for k, e in states:
+                c = e['c']
+                if (e['st'] == 'CONNECTING' and tr[0]['kind'][c - 1] == 'out' and k + 1 < len(tr)
+                        and tr[k + 1]['ev'] == 'q' and tr[k + 1]['att'][c - 1] == 'running' and c in tr[k + 1]['reg']):
+                    bad = copy.deepcopy(tr)
+                    for j in (k, k + 1):
+                        bad[j]['reg'] = [x for x in bad[j]['reg'] if x != c]
+                    out.append(('unregistered-while-connecting', bad))
+                    want['unregistered-while-connecting'] -= 1
+                    break
         closed = [(k, e) for k, e in states if e['st'] == 'CLOSED' and tr[0]['kind'][e['c'] - 1] in ('in', 'out')]
         if not closed:
             continue
